@@ -9,8 +9,9 @@ Property theorems only.  Model of the code: `NA/Model/Linux.lean` (`diffRoutes`,
 `NA/Spec/Linux.lean`.  All statements are over arbitrary route lists, rule sets and grammar rules.
 
 False of the unchanged code, with witness and complement:
-* `linux_routes_converge` — false when the target names one route twice
-  (`linux_routes_converge_counterexample`, F-C05d); proved otherwise: `linux_routes_converge_partial`.
+* `linux_routes_converge` — was false when the target names one route twice (F-C05d, witness kept as
+  `linux_routes_converge_unrepaired_counterexample` about the loop without the repair); repaired in /repo,
+  now proved for every target.
 * `iptables_replace_converges` — false when the device has a table the target lacks
   (`iptables_replace_converges_counterexample`, F-C05t); proved otherwise: `…_partial`.
 * `kernel_roundtrip` — false when an option key repeats (`kernel_roundtrip_counterexample`, F-C05m);
@@ -29,27 +30,31 @@ open NA.Linux NA.Linux.Spec
 /-! ## routes -/
 
 /-- The script of `diffRoutes`, executed line by line (a joined `del \N add` is one step) on the
-strict kernel table that holds the device's routes, succeeds and ends in exactly the target's
-routes — for a device table without duplicates (it is a set) and a target that names no route twice. -/
-theorem linux_routes_converge_partial (a b : List Route) (ha : (keys a).Nodup) (hb : (keys b).Nodup) :
+strict kernel table that holds the device's routes (a set: no duplicates), succeeds and ends in
+exactly the target's routes — for every target, also one that names a route several times (since
+the repair of F-C05d). -/
+theorem linux_routes_converge (a b : List Route) (ha : (keys a).Nodup) :
     ∃ t, execScript (keys a) ((diffRoutes a b).map cmdsOf) = some t ∧ t.Nodup ∧ ∀ k, k ∈ t ↔ k ∈ keys b := by
-  obtain ⟨tr, h1, h2, h3, _⟩ := core_ok a b (sortRoutes b) ha (sortRoutes_nodup b hb) (sortRoutes_mem b)
+  obtain ⟨hn, hs, hk⟩ := target_spec b
+  obtain ⟨tr, h1, h2, h3, _⟩ := core_ok a b _ ha hn hs hk
   exact ⟨_, execScript_of_trace _ _ _ h1, h2, h3⟩
 
-/-- Without the hypothesis on the target the statement is false: the same route twice in the
-target makes the script add a route that exists. -/
-theorem linux_routes_converge_counterexample :
-    ∃ a b : List Route, (keys a).Nodup ∧ execScript (keys a) ((diffRoutes a b).map cmdsOf) = none :=
+/-- The loop without the repair (`diffRoutesCore` on the sorted target, as the unchanged code
+did) fails when the target names a route twice: it adds a route that exists. -/
+theorem linux_routes_converge_unrepaired_counterexample :
+    ∃ a b : List Route, (keys a).Nodup ∧
+      execScript (keys a) ((diffRoutesCore a (sortRoutes b)).map cmdsOf) = none :=
   ⟨[⟨s "10.1.1.0", 24, s "10.9.1.1", s "ip route add 10.1.1.0/24 via 10.9.1.1"⟩],
    [⟨s "10.1.1.0", 24, s "10.9.1.1", s "ip route add 10.1.1.0/24 via 10.9.1.1"⟩,
     ⟨s "10.1.1.0", 24, s "10.9.1.1", s "ip route add 10.1.1.0/24 via 10.9.1.1"⟩], by decide⟩
 
 /-- If device and target have at most one next hop per destination, so has every state between
 two script lines. -/
-theorem linux_routes_one_hop_per_dst (a b : List Route) (ha : (keys a).Nodup) (hb : (keys b).Nodup)
+theorem linux_routes_one_hop_per_dst (a b : List Route) (ha : (keys a).Nodup)
     (h1 : OneHop a) (h2 : OneHop b) :
     ∃ tr, execTrace (keys a) ((diffRoutes a b).map cmdsOf) = some tr ∧ ∀ t ∈ tr, oneHopPerDst t := by
-  obtain ⟨tr, h, _, _, hst⟩ := core_ok a b (sortRoutes b) ha (sortRoutes_nodup b hb) (sortRoutes_mem b)
+  obtain ⟨hn, hs, hk⟩ := target_spec b
+  obtain ⟨tr, h, _, _, hst⟩ := core_ok a b _ ha hn hs hk
   refine ⟨tr, h, ?_⟩
   intro t ht
   obtain ⟨am, P, st⟩ := hst t ht
@@ -57,10 +62,11 @@ theorem linux_routes_one_hop_per_dst (a b : List Route) (ha : (keys a).Nodup) (h
 
 /-- Every destination that has a route before and after has one after every script line (joined
 lines are atomic).  Used by C14. -/
-theorem routes_covered_linux (a b : List Route) (ha : (keys a).Nodup) (hb : (keys b).Nodup) :
+theorem routes_covered_linux (a b : List Route) (ha : (keys a).Nodup) :
     ∃ tr, execTrace (keys a) ((diffRoutes a b).map cmdsOf) = some tr ∧
       ∀ t ∈ tr, ∀ d, covered (keys a) d = true → covered (keys b) d = true → covered t d = true := by
-  obtain ⟨tr, h, _, _, hst⟩ := core_ok a b (sortRoutes b) ha (sortRoutes_nodup b hb) (sortRoutes_mem b)
+  obtain ⟨hn, hs, hk⟩ := target_spec b
+  obtain ⟨tr, h, _, _, hst⟩ := core_ok a b _ ha hn hs hk
   refine ⟨tr, h, ?_⟩
   intro t ht d hda hdb
   obtain ⟨am, P, st⟩ := hst t ht
@@ -68,10 +74,11 @@ theorem routes_covered_linux (a b : List Route) (ha : (keys a).Nodup) (hb : (key
 
 /-- With one next hop per destination on both sides the script also runs on the kernel that refuses
 a second route to a destination (`RTNETLINK answers: File exists`), and converges. -/
-theorem linux_routes_kernel_strict (a b : List Route) (ha : (keys a).Nodup) (hb : (keys b).Nodup)
+theorem linux_routes_kernel_strict (a b : List Route) (ha : (keys a).Nodup)
     (h1 : OneHop a) (h2 : OneHop b) :
     ∃ t, execScriptK (keys a) ((diffRoutes a b).map cmdsOf) = some t ∧ ∀ k, k ∈ t ↔ k ∈ keys b := by
-  obtain ⟨tr, h, _, h3, hst⟩ := core_ok a b (sortRoutes b) ha (sortRoutes_nodup b hb) (sortRoutes_mem b)
+  obtain ⟨hn, hs, hk⟩ := target_spec b
+  obtain ⟨tr, h, _, h3, hst⟩ := core_ok a b _ ha hn hs hk
   refine ⟨_, scriptK_of_trace _ _ tr h ?_, h3⟩
   intro t ht
   obtain ⟨am, P, st⟩ := hst t ht
@@ -231,7 +238,7 @@ example : Stable (normalize [(s "-s", s "10.1.1.1/32"), (s "-p", s "TCP"), (s "-
   decide
 
 def obligations : List Lean.Name := [
-  ``linux_routes_converge_partial, ``linux_routes_converge_counterexample,
+  ``linux_routes_converge, ``linux_routes_converge_unrepaired_counterexample,
   ``linux_routes_one_hop_per_dst, ``routes_covered_linux, ``linux_routes_kernel_strict,
   ``iptables_diff_iff_partial, ``iptables_diff_iff_counterexample,
   ``iptables_replace_converges_partial, ``iptables_replace_converges_parsed, ``iptables_replace_converges_counterexample,
